@@ -67,10 +67,15 @@ def to_obj(e):
 _cache = {}
 
 
-def opened(tc, L, P, rpc, seed=0):
-    """(product, lazy DataArray, twin DataArray, image file name) - cached per worker"""
-    key = (tc, L, P, rpc)
+def opened(tc, L, P, rpc, seed=0, cached_from=None):
+    """(product, lazy DataArray, twin DataArray, image file name) - cached per worker.
+    cached_from=N: the image is opened through an index cache written and first used at rpc N"""
+    from mc import env
+
+    key = (tc, L, P, rpc, cached_from)
     if key not in _cache:
+        env.import_lib()
+        env.wipe_cache()
         for k in list(_cache):
             _cache.pop(k)[0].close()
         import xarray as xr
@@ -79,7 +84,12 @@ def opened(tc, L, P, rpc, seed=0):
         spec = synth.product_spec("1.1" if tc == "C*8" else "1.5", images=[im])
         files, _ = synth.build(spec)
         prod = harness.Product(files, "mcfs")
-        tree = prod.open(records_per_chunk=rpc)
+        if cached_from is not None:
+            prod.open(records_per_chunk=cached_from, create_cache=True, use_cache=False)
+            prod.open(records_per_chunk=cached_from, use_cache=True)
+            tree = prod.open(records_per_chunk=rpc, use_cache=True)
+        else:
+            tree = prod.open(records_per_chunk=rpc, use_cache=False)
         da = tree["imagery/HH/data"]
         raw = synth.default_samples(L, P, tc, 0)
         if tc == "IU2":
